@@ -30,6 +30,56 @@ EM = "sleap_nn.data.edge_maps"
 UT = "sleap_nn.data.utils"
 
 
+def _flattens_edge_major(fn: ast.AST, c: ast.Call) -> bool:
+    """c reshapes its (edges, 2, H, W) receiver to (edges*2, H, W): flatten(0, 1), or reshape/view to (E*2 | -1, H, W) with
+    H, W, E the grid sides / edge count however they are spelt (len(yv), yv.shape[0], the receiver's own shape, ...)."""
+    recv = c.func.value.id
+    if c.func.attr == "flatten":
+        return [astq.const_value(a) for a in c.args] == [0, 1] and not c.keywords
+    at = enclosing_stmt(c)
+    args = list(c.args)
+    if len(args) == 1:
+        one = astq.expand_at(fn, args[0], at, keep=[recv])
+        args = list(one.elts) if isinstance(one, (ast.Tuple, ast.List)) else args
+    if len(args) != 3 or c.keywords:
+        return False
+    ex = [astq.expand_at(fn, a, at, keep=[recv, "xv", "yv"]) for a in args]
+
+    def side(e, vec, axes):
+        t = norm(e)
+        return t in {f"len({vec})", f"{vec}.shape[0]", f"{vec}.size(0)", f"{vec}.numel()"} | {f"{recv}.shape[{k}]" for k in axes} | {f"{recv}.size({k})" for k in axes}
+
+    def edges(e):
+        t = norm(e)
+        return t in {f"{recv}.shape[0]", f"{recv}.size(0)", f"{recv}.shape[-4]"} or (t.startswith("len(") and t.endswith("edge_inds)")) or t.endswith("edge_inds.shape[0]")
+
+    d0 = ex[0]
+    ok0 = astq.const_value(d0) == -1 or (isinstance(d0, ast.BinOp) and isinstance(d0.op, ast.Mult) and
+                                         ((astq.const_value(d0.right) == 2 and edges(d0.left)) or (astq.const_value(d0.left) == 2 and edges(d0.right))))
+    return ok0 and side(ex[1], "yv", (2, -2)) and side(ex[2], "xv", (3, -1))
+
+
+def _grid_is_xy(g: Optional[ast.AST], xv: str, yv: str) -> bool:
+    """g is  stack((X, Y), dim=-1)  where X / Y are the meshgrid components that hold the values of xv along the columns /
+    of yv along the rows: meshgrid(yv, xv, indexing="ij") -> (Y, X);  meshgrid(xv, yv, indexing="xy") -> (X, Y)."""
+    if not (isinstance(g, ast.Call) and norm(g.func).split(".")[-1] == "stack" and g.args and isinstance(g.args[0], (ast.Tuple, ast.List)) and len(g.args[0].elts) == 2):
+        return False
+    dim = astq.const_value(astq.call_arg(g, 1, "dim")) if astq.call_arg(g, 1, "dim") is not None else 0
+    if dim not in (-1, 2):
+        return False
+    want = []
+    for e in g.args[0].elts:
+        if not (isinstance(e, ast.Subscript) and isinstance(e.value, ast.Call) and norm(e.value.func).split(".")[-1] == "meshgrid" and len(e.value.args) == 2):
+            return False
+        k = astq.const_value(e.slice)
+        idx = next((astq.const_value(kw.value) for kw in e.value.keywords if kw.arg == "indexing"), "ij")
+        if k not in (0, 1) or idx not in ("ij", "xy"):
+            return False
+        # component k holds the values of argument k; with "ij" it varies along axis k, with "xy" along axis 1 - k
+        want.append((norm(e.value.args[k]), k if idx == "ij" else 1 - k))
+    return want == [(xv, 1), (yv, 0)]
+
+
 def check_nan(prog: Program, res: Result) -> None:
     R = "C05-nan"
     nt = NanTaint(prog, POSITIVE)
@@ -198,23 +248,25 @@ def check_dir(prog: Program, res: Result) -> None:
     res.ob(R, ok, ge.qualname, "sources = column 0 of edge_inds, destinations = column 1", "get_edge_points swaps or mis-indexes sources and destinations", ge.where, sample=d)
     # edge map grid: meshgrid(yv, xv, 'ij') stacked as (xx, yy)
     me = prog.func(f"{EM}:make_edge_maps")
-    mg = [s for s in walk_function(me.node) if isinstance(s, ast.Assign) and isinstance(s.value, ast.Call) and norm(s.value.func) == "torch.meshgrid"]
-    ok = len(mg) == 1 and [norm(e) for e in mg[0].targets[0].elts] == ["yy", "xx"] and [norm(a) for a in mg[0].value.args] == ["yv", "xv"] \
-        and any(k.arg == "indexing" and norm(k.value) == "'ij'" for k in mg[0].value.keywords)
-    sgd = [s for s in walk_function(me.node) if isinstance(s, ast.Assign) and norm(s.targets[0]) == "sampling_grid"]
-    ok = ok and len(sgd) == 1 and norm(sgd[0].value).replace(" ", "") == "torch.stack((xx,yy),dim=-1)"
+    res.touch(me)
+    dc = [c for c, q in prog.calls_in(me) if q == f"{EM}:distance_to_edge"]
+    ok = False
+    if len(dc) == 1:
+        g = astq.bind_args(prog.func(f"{EM}:distance_to_edge"), dc[0]).get("points")
+        g = astq.expand_at(me.node, g, dc[0], unpack_calls=True) if g is not None else None
+        ok = _grid_is_xy(g, me.params[0], me.params[1])
     res.ob(R, ok, me.qualname, "sampling grid is (x, y) per cell, rows = y", "the sampling grid mixes up x and y", me.where)
     # generate_pafs: flatten (edges, 2, H, W) -> (edges*2, H, W)
     for q in (f"{EM}:generate_pafs", f"{EM}:PartAffinityFieldsGenerator.__iter__"):
         g = prog.func(q)
         res.touch(g)
-        rs = [c for c in walk_function(g.node) if isinstance(c, ast.Call) and isinstance(c.func, ast.Attribute) and c.func.attr in ("reshape", "view") and len(c.args) == 3
-              and "n_edges" in norm(c.args[0])]
-        ok = len(rs) == 1 and [norm(a).replace("2 * n_edges", "n_edges * 2") for a in rs[0].args] == ["n_edges * 2", "grid_height", "grid_width"]
-        if ok:
-            # what is flattened is the make_multi_pafs result
-            srcx = astq.expand_at(g.node, rs[0].func.value, enclosing_stmt(rs[0]))
-            ok = "make_multi_pafs(" in norm(srcx)
+        rs = []
+        for c in walk_function(g.node):
+            if isinstance(c, ast.Call) and isinstance(c.func, ast.Attribute) and c.func.attr in ("reshape", "view", "flatten") and isinstance(c.func.value, ast.Name):
+                srcx = astq.expand_at(g.node, c.func.value, enclosing_stmt(c))
+                if isinstance(srcx, ast.Call) and norm(srcx.func).split(".")[-1] == "make_multi_pafs":   # what is flattened is the make_multi_pafs result itself
+                    rs.append(c)
+        ok = len(rs) == 1 and _flattens_edge_major(g.node, rs[0])
         res.ob(R, ok, g.qualname, "channels flattened edge-major (edge0.x, edge0.y, edge1.x, ...)", "the (edges, 2) axes are not flattened as edges*2", g.where)
         mm = [c for c, qq in prog.calls_in(g) if qq == f"{EM}:make_multi_pafs"]
         gp = [c for c, qq in prog.calls_in(g) if qq == f"{EM}:get_edge_points"]
